@@ -47,6 +47,11 @@ type State struct {
 	owned  map[string]ownedCell // cells allocated by the running activations whose address has not been given away
 }
 
+type mapLenRec struct {
+	m, l Term
+	dom  *HeapV
+}
+
 type ownedCell struct {
 	addr Term
 	comp string
@@ -134,6 +139,7 @@ type Tr struct {
 	coverResult string
 	typeInvMode bool
 	callHints []Term
+	mapLens   []mapLenRec
 	atDone map[string]bool
 	usedAssumed map[string]bool
 	firstIterHints []Term // replay preference: loop-head state of the first iteration
@@ -350,6 +356,7 @@ type Act struct {
 	mergeRunDefers bool
 	havocCallee *ssa.Function
 	frameCallee *ssa.Function
+	visMode  string
 	pendingExits   []pendingExit
 }
 
@@ -367,6 +374,9 @@ type loopInfo struct {
 	preSt  *State
 	invs   []*loopInv
 	measure []Term
+	visName string
+	visHead func(x Term) Term
+	visBack func(x Term) Term
 }
 
 type loopInv struct {
